@@ -71,6 +71,22 @@ ARRAY_OPS = ['sq-ctor', 'curly-ctor', 'array:put', 'array:append', 'array:append
              'let-alias-append', 'let-alias-put', 'nest-arr-map', 'nest-arr-arr']
 WRAPPABLE = ('map:get', 'map:contains', 'map:put', 'map:remove', 'map-call', 'map-lookup', 'array:get', 'array:remove',
              'array-call', 'array-lookup', 'array:put')
+_PT1H = "xs:dayTimeDuration('PT1H')"
+# fixed expressions with their value: a key that has been a key before, then adjusted to a timezone, is a new key
+LAWS = [
+    ("let $k := xs:dateTime('2000-01-01T00:00:00'), $m := map{$k: 1}, $k2 := adjust-dateTime-to-timezone($k, %s) return "
+     "(map:get(map{$k2: 2}, adjust-dateTime-to-timezone(xs:dateTime('2000-01-01T00:00:00'), %s)), "
+     "map:size(map:merge((map{$k2: 1}, map{adjust-dateTime-to-timezone(xs:dateTime('2000-01-01T00:00:00'), %s): 2}))), $m($k), "
+     "map:contains(map{$k2: 1}, $k))" % (_PT1H, _PT1H, _PT1H), [['int', '2'], ['int', '1'], ['int', '1'], ['bool', False]]),
+    ("let $k := xs:date('2000-01-01'), $m := map{$k: 1}, $k2 := adjust-date-to-timezone($k, %s) return "
+     "(map{$k2: 2}(adjust-date-to-timezone(xs:date('2000-01-01'), %s)), map:size(map:put(map{$k2: 1}, "
+     "adjust-date-to-timezone(xs:date('2000-01-01'), %s), 3)), $m?*)" % (_PT1H, _PT1H, _PT1H), [['int', '2'], ['int', '1'], ['int', '1']]),
+    ("let $k := xs:time('12:00:00'), $m := map{$k: 1}, $k2 := adjust-time-to-timezone($k, %s) return "
+     "(map:get(map{$k2: 2}, xs:time('12:00:00+01:00')), map:get($m, xs:time('12:00:00')))" % _PT1H, [['int', '2'], ['int', '1']]),
+    ("let $k := xs:dateTime('2000-01-01T00:00:00Z'), $m := map{$k: 1}, $k2 := adjust-dateTime-to-timezone($k, ()) return "
+     "(map:get(map{$k2: 2}, xs:dateTime('2000-01-01T00:00:00')), map:get($m, xs:dateTime('2000-01-01T00:00:00Z')), "
+     "map:contains($m, $k2))", [['int', '2'], ['int', '1'], ['bool', False]]),
+]
 LOOP_FORMS = ["for $x in %s return map{'k': $x}?*", "for $x in %s return map{'k': $x}?k", "for $x in %s return map{'k': $x}('k')",
               "for $x in %s return [$x]?*", "for $x in %s return [$x](1)", "for $x in %s return array{$x, 0}?1", "%s ! map{'k': .}?*",
               "%s ! [.]?1", "for $x in %s return map:get(map{'k': $x, 'j': 0}, 'k')", "for $x in %s return array:size([$x, $x])#size",
@@ -127,6 +143,19 @@ def expr_and_model(op, pool, template=False):
     if name.startswith('u:'):
         tmpl = UNMODELLED_ARRAY.get(name) or UNMODELLED_MAP[name]
         return tmpl % tuple(r[:tmpl.count('%s')]), None
+    if name == 'law':
+        text, want = LAWS[op['form'] % len(LAWS)]
+        return text, lambda: ['exact', want]
+    if name == 'key-kept':
+        # which of two same-key keys of different numeric types is the key of the result (exact type): the supplied
+        # key for map:put, the first for use-first and combine, the last for use-last
+        k1, k2 = ATOMS[op['k'][0]], ATOMS[op['k'][1]]
+        form = op['form'] % 4
+        if form == 0:
+            return 'map:keys(map:put(map{%s: 1}, %s, 2))' % (k1[0], k2[0]), lambda: ['exact', list(k2[1])]
+        d = ['use-first', 'use-last', 'combine'][form - 1]
+        return "map:keys(map:merge((map{%s: 1, 'z': 0}, map{%s: 2}), map{'duplicates': '%s'}))[not(. instance of xs:string)]" % (
+            k1[0], k2[0], d), lambda: ['exact', list(k2[1] if d == 'use-last' else k1[1])]
     if name == 'loop-ctor':
         # a constructor with context-dependent entries evaluated again and again (one call site, many values)
         form = LOOP_FORMS[op['form'] % len(LOOP_FORMS)]
@@ -316,6 +345,13 @@ def gen_case(rng, tier):
             # an array / a map built through the Python API from caller-owned containers that are modified afterwards
             ops.append({'name': 'py-ctor', 'kind': 'array' if rng.random() < 0.6 else 'map',
                         'args': [atom() for _i in range(rng.choice([1, 2, 3]))]})
+            continue
+        if rng.random() < 0.02:
+            ops.append({'name': 'law', 'form': rng.randrange(len(LAWS)), 'args': []})
+            continue
+        if rng.random() < 0.03:
+            fam = rng.choice([[1, 5, 8], [0, 7, 13], [6, 9]])
+            ops.append({'name': 'key-kept', 'form': rng.randrange(4), 'k': [rng.choice(fam), rng.choice(fam)], 'args': []})
             continue
         if rng.random() < 0.05:
             ops.append({'name': 'loop-ctor', 'form': rng.randrange(len(LOOP_FORMS)),
@@ -641,6 +677,11 @@ def run_case(case, world):
                     '%s returned %r, model raises %s' % (text, observed, expected[1]), feats)
         else:
             tag = expected[1][0] if M.is_item(expected[1]) else None
+            if tag == 'exact':
+                if canon(got) != expected[1][1] and canon(got) != [expected[1][1]]:
+                    violate('MODEL_MISMATCH', 'key-kept:%s' % op['name'],
+                            '%s gave the key %r, the key of the result is %r' % (text, canon(got), expected[1][1]), feats)
+                continue
             if tag in ('keys', 'bag'):
                 observed = [tag, M.as_seq(M.norm(observed))]
             elif tag == 'seq':
